@@ -1,7 +1,8 @@
 // feature unimock: True
+macro_rules! define_item { ($p:ident) => {
 #[::entrait::entrait(pub T)]
-async fn f1<D, G1x1: ::core::fmt::Debug + Send>(deps: &D, g1: G1x1, r2: &str) -> String {
-    let __args: String = String::new() + &::vt::js(&format!("{:?}", g1)) + "," + &::vt::js(&r2.to_string());
+async fn f1<D>(deps: &D, $p: i32, a2: i32) -> String {
+    let __args: String = String::new() + &::vt::js(&format!("{:?}", $p)) + "," + &::vt::js(&format!("{:?}", a2));
     ::vt::emit("enter", &format!("\"f\":\"c000280::f1\",\"deps\":{},\"args\":[{}]", ::vt::js(&::vt::addr(deps)), __args));
     ::vt::yield_once().await;
     let __val = format!("c000280::f1({})", __args);
@@ -9,11 +10,14 @@ async fn f1<D, G1x1: ::core::fmt::Debug + Send>(deps: &D, g1: G1x1, r2: &str) ->
     __val
 }
 
+} }
+define_item!(a2);
+
 pub fn run() {
     { ::vt::emit("scenario", "\"case\":\"c000280\",\"sc\":1");
       let app = ::entrait::Impl::new(crate::App { id: 1 });
-      ::vt::emit("call", &format!("\"m\":\"f1\",\"recv\":{},\"args\":[\"-248\",\"r-13\"]", ::vt::js(&::vt::addr(&app))));
-      let fut = f1(&app, -248, "r-13");
+      ::vt::emit("call", &format!("\"m\":\"f1\",\"recv\":{},\"args\":[\"-248\",\"-13\"]", ::vt::js(&::vt::addr(&app))));
+      let fut = f1(&app, -248, -13);
       ::vt::emit("future", "\"m\":\"f1\"");
       let r: String = ::vt::block_on(fut);
       ::vt::emit("ret", &format!("\"m\":\"f1\",\"val\":{}", ::vt::js(&r)));
@@ -21,8 +25,8 @@ pub fn run() {
       ::vt::emit("end", &format!("\"panicked\":false,\"result\":{}", __res)); }
     { ::vt::emit("scenario", "\"case\":\"c000280\",\"sc\":2");
       let app = ::entrait::Impl::new(crate::App { id: 2 });
-      ::vt::emit("call", &format!("\"m\":\"f1\",\"recv\":{},\"args\":[\"-248\",\"r-13\"]", ::vt::js(&::vt::addr(&app))));
-      let fut = T::f1(&app, -248, "r-13");
+      ::vt::emit("call", &format!("\"m\":\"f1\",\"recv\":{},\"args\":[\"-248\",\"-13\"]", ::vt::js(&::vt::addr(&app))));
+      let fut = T::f1(&app, -248, -13);
       ::vt::emit("future", "\"m\":\"f1\"");
       let r: String = ::vt::block_on(fut);
       ::vt::emit("ret", &format!("\"m\":\"f1\",\"val\":{}", ::vt::js(&r)));
@@ -30,8 +34,8 @@ pub fn run() {
       ::vt::emit("end", &format!("\"panicked\":false,\"result\":{}", __res)); }
     { ::vt::emit("scenario", "\"case\":\"c000280\",\"sc\":3");
       let app = ::entrait::Impl::new(crate::App { id: 3 });
-      ::vt::emit("call", &format!("\"m\":\"f1\",\"recv\":{},\"args\":[\"-248\",\"r-13\"]", ::vt::js(&::vt::addr(&app))));
-      let fut = T::f1(&app, -248, "r-13");
+      ::vt::emit("call", &format!("\"m\":\"f1\",\"recv\":{},\"args\":[\"-248\",\"-13\"]", ::vt::js(&::vt::addr(&app))));
+      let fut = T::f1(&app, -248, -13);
       drop(fut);
       ::vt::emit("dropped", "\"m\":\"f1\"");
       ::vt::emit("end", "\"panicked\":false,\"result\":\"\""); }
